@@ -504,6 +504,7 @@ impl Ctx {
         let share: usize = match op {
             0 | 1 | 16 => 30, 2 => 40, 3 => 70, 4..=11 => 30, 12 => 60, 13 | 14 | 15 => 40, 17 => 40, 18 => 60,
             19..=22 => 45, 28 => 40, 29 => 150, 30 => 90, 31 | 32 => 60, 33 => 30, 34 | 35 => 40, 36 => 60,
+            37 => 30, 38 => 20, 39 => 40, 40 => 10,
             _ => 30,
         };
         let cap = share * self.budget / 1500 / flavours.max(1) + 1;
@@ -616,6 +617,26 @@ fn run_case(cx: &mut Ctx, c: &Case, force: bool) {
                     }
                 }
                 "ext/rev" => {}
+                "ext/vec" => {
+                    // the Vec wrapper: std sort when the data fits the buffer, else replacement selection
+                    if c.pp(0) / 8 < 4000 { cx.coq(38, &[c.pp(0)], &[&c.xs], &out.ints, c, force); }
+                    else { cx.coq(12, &[], &[&c.xs, &out.ints], &[1], c, force); }
+                }
+                "kv/u32" | "kv/u64" => {
+                    // keys and the values that came out with them (value i was attached to xs[i])
+                    let keys: Vec<u64> = if cell == "kv/u32" { c.xs.iter().map(|&x| x as u32 as u64).collect() } else { c.xs.clone() };
+                    let mut e = vec![1u64];
+                    e.extend_from_slice(&out.ints);
+                    e.extend_from_slice(&out.aux);
+                    cx.coq(39, &[threads], &[&keys], &e, c, force);
+                }
+                "adv/u64_execute" => {
+                    if fits(48) {
+                        let (force_s, adaptive) = (if c.pp(0) <= 5 { c.pp(0) } else { 0 }, (c.pp(0) != 6) as u64);
+                        let nt = if c.pp(4) > 0 { c.pp(4) } else { threads };
+                        cx.coq(40, &[8, force_s, adaptive, c.pp(1), c.pp(2), c.pp(3), nt, c.pp(5)], &[&c.xs], &out.ints, c, force);
+                    } else { cx.coq(12, &[], &[&c.xs, &out.ints], &[1], c, force); }
+                }
                 "co/oblivious" => {
                     if fits(90) { cx.coq(35, &[c.pp(3), c.pp(1), c.pp(5).max(1)], &[&c.xs], &out.ints, c, force); }
                     else { cx.coq(12, &[], &[&c.xs, &out.ints], &[1], c, force); }
@@ -664,7 +685,7 @@ fn run_case(cx: &mut Ctx, c: &Case, force: bool) {
                     cx.coq(36, &[c.pp(0), c.pp(1)], &ins, &out.ints, c, force);
                 }
                 "merge/two" | "merge/in_place" | "simd/merge2" => cx.coq(18, &[], &[&c.a, &c.b], &out.ints, c, force),
-                "simd/multi" => cx.coq(12, &[], &[&all, &out.ints], &[1], c, force),
+                "simd/multi" => cx.coq(37, &[], &ins, &out.ints, c, force),
                 _ => {}
             }
         }
@@ -1144,7 +1165,7 @@ pub fn run(args: &Args) {
         if i % 97 == 0 { cx.sum.sample(json!({"cell": c.cell, "cfg": c.p, "n": c.xs.len() + c.a.len() + c.b.len() + c.runs.len() + c.strs.len()})); }
         cx.sum.dist(&format!("family={}", c.cell.split('/').next().unwrap_or("")));
     }
-    for cell in ["co/sort", "co/sort_u8", "co/default", "simd/multi", "ext/vec", "ext/rev", "kv/u32", "kv/u64", "adv/u64_execute"] {
+    for cell in ["co/sort", "co/sort_u8", "co/default", "ext/rev", "lt/rev"] {
         cx.sum.cell_status(cell, "S-only");
     }
     for cell in ["adv/str", "ext/rev", "kway/inter"] { cx.sum.cell_status(cell, "finding"); }
